@@ -481,12 +481,18 @@ func (m *Model) onAtomic(ev Event) {
 	switch cause {
 	case otter.CauseExpiration:
 		if !exp {
-			m.fail("overflow", "%s: the entry has not expired (deadline %d, now %d)", ev, cur.exp, m.t())
+			m.fail("early", "%s: the entry has not expired (deadline %d, now %d)", ev, cur.exp, m.t())
 			return
 		}
 	case otter.CauseOverflow:
 		if !m.cfg.Bounded() {
-			m.fail("overflow", "%s in a cache without a size bound", ev)
+			// (with expiration configured the only automatic remover is the timer wheel: the entry left
+			// before its deadline)
+			cl := "overflow"
+			if m.cfg.WithExp() && !exp {
+				cl = "early"
+			}
+			m.fail(cl, "%s in a cache without a size bound (deadline %d, now %d)", ev, cur.exp, m.t())
 			return
 		}
 		if cur.w == 0 {
@@ -495,7 +501,11 @@ func (m *Model) onAtomic(ev Event) {
 		}
 		total := m.totalWeight() + m.pendingWeight()
 		if total <= m.max && uint64(cur.w) <= m.max {
-			m.fail("overflow", "%s: total weight %d does not exceed the maximum %d", ev, total, m.max)
+			cl := "overflow"
+			if m.cfg.WithExp() && !exp {
+				cl = "early" // no size pressure explains it: an unexpired entry left before its deadline
+			}
+			m.fail(cl, "%s: total weight %d does not exceed the maximum %d (deadline %d, now %d)", ev, total, m.max, cur.exp, m.t())
 			return
 		}
 		if now := m.t(); m.cfg.WithExp() && !cur.shortened && uint64(cur.w) <= m.max && cur.exp < now-tickNanos && cur.writtenAt < now-tickNanos {
